@@ -368,6 +368,11 @@ class Emitter:
             return Ty('pair', cn, elem=tb, key=ta, ref=ref, const=const)
         if re.fullmatch(r'std::_Bit_reference|std::vector<bool(, std::allocator<bool>)?>::reference', q):
             return Ty('bitref', 'cc_bool', ref=ref, const=const)
+        m = re.fullmatch(r'std::stack<(.*)>', q)
+        if m:
+            # std::stack<T> (over deque) is modelled as the vector of its elements: push/emplace -> push_back, top -> back, pop -> pop_back
+            targs = split_targs(m.group(1)); t = self.ty('std::vector<%s>' % targs[0].strip()); t.ref = ref or t.ref; t.const = const or t.const
+            self.rules['std::stack-as-vector'] += 1; return t
         m = re.fullmatch(r'std::vector<(.*)>', q)
         if m:
             args = split_targs(m.group(1)); e = self.ty(args[0])
@@ -462,6 +467,12 @@ class Emitter:
         if len(cands) == 1: return self.records[cands[0]]
         if len(cands) > 1:
             cands.sort(key=len); return self.records[cands[0]]
+        # a nested class defined out of line (class Outer::Inner { ... } at namespace scope) is indexed without its outer
+        # class: unique match on the last component
+        last = q.split('::')[-1]
+        if re.fullmatch(r'[A-Za-z_]\w*', last):
+            cands = [k for k in self.records if k.split('::')[-1] == last]
+            if len(cands) == 1: return self.records[cands[0]]
         return None
 
     def find_enum(self, q):
